@@ -617,6 +617,10 @@ class GenFunctions(object):
         )
 
         fcn = cls.add_function(decl, splicer=splicer)
+        # The accessor follows the options of the member (its own,
+        # or those of a block around it).
+        fcn.options.reparent(var.options)
+        fcn.wrap = fcn.wrap.__class__(fcn.options)
         fcn.wrap.lua = False
         fcn.wrap.python = False
 
@@ -653,6 +657,8 @@ class GenFunctions(object):
         fcn = cls.add_function(decl, attrs=attrs, splicer=splicer)
         # XXX - The function is not processed like other, so set intent directly.
         fcn.ast.params[0].metaattrs["intent"] = "in"
+        fcn.options.reparent(var.options)
+        fcn.wrap = fcn.wrap.__class__(fcn.options)
         fcn.wrap.lua = False
         fcn.wrap.python = False
 
